@@ -4,6 +4,7 @@ import (
 	"bytes"
 	"context"
 	"errors"
+	"fmt"
 	"sync"
 	"testing"
 	"time"
@@ -33,6 +34,19 @@ type c01bStep struct {
 	// Relayout: before this step's operations (nothing of the workload in flight) the layout of the
 	// table changes: the client's cached locations for the affected range are stale from here on
 	Relayout *c01bRelayout `json:"relayout,omitempty"`
+	Busy     *c01bBusy     `json:"busy,omitempty"`
+}
+
+// c01bBusy: a request is told "retry later" Count times; while it sleeps between its attempts the region it
+// was sent to is replaced (Relayout, applied 20 ms after it was issued; the index is ignored: the change hits
+// the region of the request's row) and another request for the same row finds the new location out.
+// The sleeping request's next attempt has no excuse for going to the old place.
+type c01bBusy struct {
+	Op       opSpec       `json:"op"`
+	Class    string       `json:"class"`
+	Count    int          `json:"count"`
+	Relayout c01bRelayout `json:"relayout"`
+	Learner  opSpec       `json:"learner"`
 }
 
 type c01bRelayout struct {
@@ -84,9 +98,9 @@ func c01bRunInBubble(c c01bCase) (out Outcome) {
 		exists[tb.Name] = true
 	}
 	for _, st := range c.Steps {
-		if st.Relayout != nil {
+		if st.Relayout != nil || st.Busy != nil {
 			// (refusals take a round trip: a client that never stops asking the wrong place runs into its deadline)
-			cl.MinLatency = 50 * time.Millisecond
+			cl.MinLatency = 2 * time.Millisecond
 		}
 	}
 	opts := []gohbase.Option{gohbase.RpcQueueSize(c.Queue), gohbase.FlushInterval(time.Duration(c.FlushMS) * time.Millisecond)}
@@ -115,14 +129,16 @@ func c01bRunInBubble(c c01bCase) (out Outcome) {
 	staleArrivals := map[string]int{}
 	seenExecs := 0
 	relayouts, staleTouched := 0, 0
-	checkExecs := func() *Outcome {
+	var checkExecsSkipping func(skipResult string) *Outcome
+	checkExecs := func() *Outcome { return checkExecsSkipping("") }
+	checkExecsSkipping = func(skipResult string) *Outcome {
 		execs, _, problems := cl.Snapshot()
 		if len(problems) > 0 {
 			o := viol("misrouted", "the simulated servers saw misrouted or malformed requests: %v", problems)
 			return &o
 		}
 		for _, e := range execs[seenExecs:] {
-			if e.Marker == "" {
+			if e.Marker == "" || (skipResult != "" && e.Result == skipResult) {
 				continue
 			}
 			if !e.Executed {
@@ -152,43 +168,113 @@ func c01bRunInBubble(c c01bCase) (out Outcome) {
 		seenExecs = len(execs)
 		return nil
 	}
+	applyRelayout := func(rl *c01bRelayout, table string, si int, onlyRegion *sim.Region) {
+		regs := cl.TableRegions(table)
+		id := uint64(5000 + 10*si)
+		retire := func(r *sim.Region) {
+			stale[string(r.Name)+"@"+r.Addr] = true
+			if touched[string(r.Name)] {
+				staleTouched++
+			}
+		}
+		pick := rl.Region % len(regs)
+		if onlyRegion != nil {
+			for i, r := range regs {
+				if r == onlyRegion {
+					pick = i
+				}
+			}
+		}
+		switch rl.Kind {
+		case "move":
+			r := regs[pick]
+			if to := addrs[rl.Server%len(addrs)]; to != r.Addr {
+				retire(r)
+				delete(stale, string(r.Name)+"@"+to)
+				delete(touched, string(r.Name))
+				cl.Move(r, to)
+				relayouts++
+			}
+		case "split":
+			r := regs[pick]
+			at := append(append([]byte{}, r.Start...), rl.At...)
+			if len(rl.At) > 0 && (len(r.Stop) == 0 || bytes.Compare(at, r.Stop) < 0) {
+				retire(r)
+				cl.Split(r, at, id, addrs[rl.Server%len(addrs)], addrs[rl.Server2%len(addrs)])
+				relayouts++
+			}
+		case "merge":
+			if len(regs) >= 2 {
+				i := rl.Region % (len(regs) - 1)
+				if onlyRegion != nil {
+					i = pick
+					if i == len(regs)-1 {
+						i--
+					}
+				}
+				retire(regs[i])
+				retire(regs[i+1])
+				cl.Merge(regs[i], regs[i+1], id, addrs[rl.Server%len(addrs)])
+				relayouts++
+			}
+		}
+	}
+	knewBetter := 0
 	for si, st := range c.Steps {
 		if rl := st.Relayout; rl != nil && exists[st.Table] {
-			regs := cl.TableRegions(st.Table)
-			id := uint64(5000 + 10*si)
-			retire := func(r *sim.Region) {
-				stale[string(r.Name)+"@"+r.Addr] = true
-				if touched[string(r.Name)] {
-					staleTouched++
+			applyRelayout(rl, st.Table, si, nil)
+		}
+		if b := st.Busy; b != nil && exists[st.Table] {
+			// (a step of its own)
+			if o := func() *Outcome {
+				bctx, cancel := context.WithTimeout(context.Background(), 3*time.Minute)
+				defer cancel()
+				cl.Lock()
+				for k := 0; k < b.Count; k++ {
+					cl.Script[b.Op.Marker] = append(cl.Script[b.Op.Marker], sim.Outcome{Kind: "exc", Class: b.Class, Stack: "busy"})
 				}
+				cl.Unlock()
+				var err, cerr error
+				done := make(chan struct{})
+				go func() { defer close(done); err, cerr = doOp(client, bctx, st.Table, b.Op) }()
+				time.Sleep(20 * time.Millisecond)
+				// (what arrived so far is judged by the layout as it was so far)
+				if o := checkExecsSkipping(b.Class); o != nil {
+					return o
+				}
+				before := relayouts
+				applyRelayout(&b.Relayout, st.Table, si, cl.Owner(st.Table, b.Op.Key))
+				time.Sleep(time.Millisecond)
+				lerr, lcerr := doOp(client, bctx, st.Table, b.Learner)
+				learnedAt := cl.Now()
+				<-done
+				if lerr != nil || err != nil {
+					return violp("request-failed", "step %d (busy): request %v, learner %v", si, err, lerr)
+				}
+				if cerr != nil || lcerr != nil {
+					return violp("foreign-response", "step %d (busy): %v %v", si, cerr, lcerr)
+				}
+				if relayouts > before {
+					// from learnedAt on the client's own cache names the new location of the row
+					execs, _, _ := cl.Snapshot()
+					for _, e := range execs[seenExecs:] {
+						if e.Marker == b.Op.Marker && !e.Executed && e.Result == "nsre" && e.T > learnedAt+5*time.Millisecond {
+							return violp("stale-location-although-known", "step %d: request %s (row %q) was told %s %d time(s); meanwhile its region was replaced and another request for the same row was served at the new location by %v; yet its next attempt, at %v, went to %s naming region %q",
+								si, b.Op.Marker, b.Op.Key, b.Class, b.Count, learnedAt, e.T, e.Addr, e.Region)
+						}
+					}
+					knewBetter++
+				}
+				return nil
+			}(); o != nil {
+				return *o
 			}
-			switch rl.Kind {
-			case "move":
-				r := regs[rl.Region%len(regs)]
-				if to := addrs[rl.Server%len(addrs)]; to != r.Addr {
-					retire(r)
-					delete(stale, string(r.Name)+"@"+to)
-					delete(touched, string(r.Name))
-					cl.Move(r, to)
-					relayouts++
-				}
-			case "split":
-				r := regs[rl.Region%len(regs)]
-				at := append(append([]byte{}, r.Start...), rl.At...)
-				if len(rl.At) > 0 && (len(r.Stop) == 0 || bytes.Compare(at, r.Stop) < 0) {
-					retire(r)
-					cl.Split(r, at, id, addrs[rl.Server%len(addrs)], addrs[rl.Server2%len(addrs)])
-					relayouts++
-				}
-			case "merge":
-				if len(regs) >= 2 {
-					i := rl.Region % (len(regs) - 1)
-					retire(regs[i])
-					retire(regs[i+1])
-					cl.Merge(regs[i], regs[i+1], id, addrs[rl.Server%len(addrs)])
-					relayouts++
-				}
+			// (scripted refusals are attempts that were not executed: not misrouting)
+			if o := checkExecsSkipping(b.Class); o != nil {
+				return *o
 			}
+			touched[string(cl.Owner(st.Table, b.Op.Key).Name)] = true
+			continue
 		}
 		ops := st.Batch
 		if st.Op != nil {
@@ -332,6 +418,9 @@ func c01bRunInBubble(c c01bCase) (out Outcome) {
 	if relayouts > 0 {
 		out.Labels = append(out.Labels, "layout_changed_under_a_warm_cache")
 	}
+	if knewBetter > 0 {
+		out.Labels = append(out.Labels, "layout_changed_while_a_request_was_backing_off")
+	}
 	n := 0
 	for _, k := range staleArrivals {
 		n += k
@@ -419,6 +508,18 @@ func c01bGen(t *rapid.T) c01bCase {
 			op.SkipBatch = op.Kind != "cas" && rapid.IntRange(0, 3).Draw(t, "skipbatch") == 0
 			st.Op = &op
 		}
+		if i > 0 && rapid.IntRange(0, 9).Draw(t, "busy") == 0 {
+			op := genOp(t, l, []string{"get", "put", "inc"}, &n)
+			op.SkipBatch = rapid.Bool().Draw(t, "busyskip")
+			n++
+			st = c01bStep{Table: tb.Name, Busy: &c01bBusy{Op: op, Count: rapid.IntRange(4, 6).Draw(t, "busycount"),
+				Class:   rapid.SampledFrom([]string{sim.TooBusy, sim.CallQueueBig, sim.Throttling, sim.RegionOpening}).Draw(t, "busyclass"),
+				Learner: opSpec{Kind: "get", Key: op.Key, Marker: fmt.Sprintf("mk%d", n)},
+				Relayout: c01bRelayout{Kind: rapid.SampledFrom([]string{"split", "merge", "move"}).Draw(t, "brlkind"), At: rapid.SliceOfN(rapid.Byte(), 1, 3).Draw(t, "brlat"),
+					Server: rapid.IntRange(0, 3).Draw(t, "brlserver"), Server2: rapid.IntRange(0, 3).Draw(t, "brlserver2")}}}
+			c.Steps = append(c.Steps, st)
+			continue
+		}
 		if i > 0 && rapid.IntRange(0, 7).Draw(t, "relayout") == 0 {
 			st.Relayout = &c01bRelayout{Kind: rapid.SampledFrom([]string{"split", "split", "merge", "move"}).Draw(t, "rlkind"),
 				Region: rapid.IntRange(0, 7).Draw(t, "rlregion"), At: rapid.SliceOfN(rapid.Byte(), 1, 3).Draw(t, "rlat"),
@@ -437,7 +538,8 @@ func TestC01_EndToEnd(t *testing.T) {
 			"check-and-put, SendBatch of 1..8, or 2..8 single operations issued concurrently; table names passed as slices with spare capacity shared by all calls) on keys constructed around the region boundaries, plus operations on a "+
 			"neighbouring table name that does not exist; single calls optionally un-batched (SkipBatch); between steps the "+
 			"layout may change (split at a drawn key, merge of two neighbours, move to another server) under the warm cache: "+
-			"a request may then arrive once at a location that used to be right, afterwards it must name the owning region at its server; "+
+			"a request may then arrive (a few times) at a location that used to be right, afterwards it must name the owning region at its server; "+
+			"or a request is told to retry later 4..6 times and, while it sleeps, its region is replaced and another request for the row is served at the new place: its next attempt must not go to the old one; "+
 			"queue size / flush interval / snappy drawn; the cache starts "+
 			"cold and warms up as regions are touched. Oracle at the servers: every request frame and every action of "+
 			"every multi-request names the region that owns its row and arrives at the server hosting it (a static "+
